@@ -1,6 +1,7 @@
 """C07 — task life-cycle: bodies follow their state machine, never run twice at once."""
 import hashlib
 import os
+import re
 from concurrent.futures import ThreadPoolExecutor
 
 import engine
@@ -443,9 +444,20 @@ def check_e2e(res, prep, r, tier, tabs, replay_sc=None):
         if i < 2:
             res.sample({"e2e_script": lines[off: off + nh + ne + 1][:14], "ovniemu": v, "model": want})
         replay = "# e2e scenario\n" + repr(dict(model=sc.model, procs=sc.procs, events=sc.events, note=sc.note)) + "\n# script:\n# " + script.replace("\n", "\n# ")
-        if v != want:
+        # where did the emulator stop?  (the panic block names the raw clock of the event)
+        where = None
+        if v == "reject":
+            mm = re.search(r"panic:\s+rclock=(\d+)", err)
+            if mm and int(mm.group(1)) in clocks:
+                where = clocks.index(int(mm.group(1)))
+            elif mm is None and "end_lint" in err:
+                where = ne
+            else:
+                where = "?"
+        if v != want or (v == "reject" and where != firstbad):
             found = True
-            res.violation(f"e2e:verdict:{sc.note}:{sc.model}", f"ovniemu -l says {v}, model says {want} (first model reject at {firstbad})",
+            res.violation(f"e2e:verdict:{sc.note}:{sc.model}",
+                          f"ovniemu -l says {v} at event {where}, model says {want} (first model reject at event {firstbad}; {ne} = finish)",
                           replay + "\n# ovniemu stderr tail:\n# " + err[-1200:].replace("\n", "\n# "))
             continue
         if v != "ok":
